@@ -177,7 +177,7 @@ def gen_sched(g):
     return {"argv": (["--incremental_sync"] if incremental else []) + ["--disable_autoupdate"],
             "tree": tree, "ops": ops, "chunks": chunks, "faults": faults,
             "pipeline": False, "sync_kind": 2 if incremental else 1, "strict_edits": True,
-            "n_edits": nedits}
+            "n_edits": nedits, "fsclock": rng.choice(["fine", "fine", "coarse", "frozen"])}
 
 
 def nontrivial(o):
